@@ -1,19 +1,23 @@
 import FormulaicVerif.Model.Parser
 import FormulaicVerif.Proofs.C15
+import FormulaicVerif.Proofs.C15Spans
 /-! # C15 — Lexing is whitespace-insensitive, quote-faithful and normalises Python code
 
 Property theorems only (helpers: `Proofs/C15.lean`), about `Model.tokenize`/`Model.lexStep`, the
 functions the correspondence engine runs against the real `tokenize`.
 
-Proved for ALL inputs: a backtick-quoted body (any characters of any class except backtick and
+Proved for ALL inputs: every token of every successfully tokenised string has a span inside the
+string and the spans are strictly ordered and disjoint (invariant of the character loop, 20-odd
+branches); a backtick-quoted body (any characters of any class except backtick and
 backslash) is ONE name token with the body verbatim and the span from the opening quote to the last
 body character; unquoted whitespace is a no-op after an operator / between tokens and otherwise only
 ends the pending token.
 
 FULL (unproved): `ws_insensitive` for whole strings (tokens of `u ++ ws ++ v` equal those of
 `u ++ v` up to spans at every safe gap) — missing: the lemma that token texts/kinds do not depend on
-the source indices threaded through the loop; `spans_ordered` (all spans ordered and disjoint) and
-`brace_verbatim`/`call_verbatim` — covered by the correspondence and the span/verbatim oracles only.
+the source indices threaded through the loop; `span_delimits_text` (the span slices back to the token
+text) and `brace_verbatim`/`call_verbatim` — covered by the correspondence and the span/verbatim
+oracles only.
 The backslash exclusion in `backtick_verbatim` is not decoration: known finding C15-F1. -/
 namespace FormulaicVerif.Props.C15
 open FormulaicVerif FormulaicVerif.Model
@@ -51,6 +55,13 @@ theorem whitespace_flushes (s : LexState) (i : Nat) (ci : CharInfo)
     (hp : s.tok.nonempty = true ∧ s.tok.kind ≠ some .operator) :
     lexStep s i ci = .ok { s with out := s.tok :: s.out, tok := Tok.fresh } :=
   Proofs.C15.whitespace_flushes s i ci hq ht hsp hc hp
+
+/-- C15.4  Spans are ordered and non-overlapping: for EVERY string that tokenises, each token has
+`start ≤ stop < length`, and each token ends strictly before the next one starts. (This is the
+statement that failed for `%%]*` before the stale-token repair.) -/
+theorem spans_ordered (cs : List CharInfo) (ts : List Tok) (h : tokenize cs = .ok ts) :
+    (∀ t ∈ ts, Proofs.C15Spans.HasSpan cs.length t) ∧ ts.Pairwise Proofs.C15Spans.Before :=
+  Proofs.C15Spans.spans_ordered cs ts h
 
 /-- whitespace is significant exactly where the property does not promise otherwise: between a name and `(` -/
 example :
